@@ -191,6 +191,10 @@ def structure_cases():
     add('parser { optional { "a"; } /[a-c]/; }', "ambiguity diagnostics on a range")
     add('parser { case { /[a-f]+/ -> {} "abc" -> {} } }', "ambiguous case with ranges")
     add('parser { "a"; end; }', "end after a match")
+    add('parser { /a{1000}/; "b"; }', "cli: counted repeat of 1000")      # known finding KF24
+    # long chains of states (a literal is one state per byte)
+    add('hook h; parser { "%s"; h(); "%s"i; }' % ("ab" * 700, "xyz" * 400), "cli: literal of 1400 characters")
+    add('out str[8] s; parser { s += /%s[0-9]+/; "%s"b; }' % ("k" * 200, "a1" * 1200), "cli: regex of 200 / binary literal of 1200 bytes")
     add('out int m = 0; parser { "a"; case { end -> { m = 1; } "b" -> { m = 2; } } }', "end as a case label")
     add('hook h; parser { try { "a"; end; } catch { h(); } }', "end inside try")
     add('parser { "a"; optional { end; } end; }', "ambiguous end patterns after a match")
@@ -249,6 +253,12 @@ def corpus_swaps(tier, seed):
 
 def check(item):
     src, why, argv = item
+    if why.startswith("cli:"):
+        # through the real command line (default recursion limit, main()'s own error handling)
+        rc, h, c, tail = loader.compile_cli(src, argv, timeout=100)
+        kind = "accepted" if rc == 0 else ("timeout" if rc == -9 else ("internal" if "Traceback" in tail else "diagnosed"))
+        last = tail.strip().splitlines()[-1][:160] if tail.strip() else ""
+        return dict(kind=kind, detail=last, where="main", cls=(last.split(":")[0] if kind == "internal" else None))
     o = loader.compile_source(src, argv, codegen=True, timeout=5 if "contradictory" in why else 20)
     res = dict(kind=o.kind, detail=o.detail[:160], where=getattr(o, "where", None), cls=getattr(o, "cls", None))
     if o.kind == "diagnosed" and not o.message:
@@ -271,6 +281,8 @@ def run(tier, seed):
     items = []
     for i, (s, w, a) in enumerate(cases):
         osets = OPTSETS if (tier == "thorough" or i % 5 == seed % 5 or (re.search(r"\bend\b", s) and "nested blocks" not in w)) else [OPTSETS[0], OPTSETS[1 + i % 8], OPTSETS[7 + i % 2]]
+        if w.startswith("cli:"):
+            osets = [[]]
         for o in osets:
             items.append((s, w, a + [x for x in o if x not in a]))
     # contradictory option sets (a flag requested together with the negation of what it implies) on a few programs
@@ -289,6 +301,8 @@ def run(tier, seed):
             ck.sample(dict(source=src, argv=argv, outcome=r["kind"], detail=r["detail"]))
         if r["kind"] in ("internal", "timeout"):
             root = "%s:%s" % (r["where"], r["cls"]) if r["kind"] == "internal" else "timeout"
+            if why.startswith("cli: counted repeat") and r["kind"] == "internal" and r["cls"] == "RecursionError":
+                root = "KF24:counted-repeat-recursion"
             ck.violation("C18:%s" % root, "%s [%s] -> %s %s | %s" % (why, " ".join(argv), r["kind"], r["detail"], src.replace("\n", " ")[:300]), dict(src=src, argv=argv, why=why))
     ck.extra["outcomes"] = outcomes
     ck.extra["mutants"] = len(cases)
